@@ -19,7 +19,7 @@ reg("C18", "exhaustive enumeration + rapidcheck (src/c18.cc)", "exploration",
     "specification: refusal iff a '..' component, exact result, no growth, idempotence, shape, guard bytes; "
     "is_filename_sane compared with its specification on every string. Complete for the enumerated space, sampled beyond. A second layer "
     "(Hypothesis) checks the funnel: tar member names and hard link targets, --exclude-dir, pack file paths, link targets and glob targets, "
-    "rdsquashfs path arguments (-c -l -s -x), sqfs2tar -r/-d - any spelling must behave like the canonical one, '..' must be refused.",
+    "sort file names (also inside quotation marks), rdsquashfs path arguments (-c -l -s -x), sqfs2tar -r/-d - any spelling must behave like the canonical one, '..' must be refused.",
     "Trusts the 25-line specification in src/c18.cc, clang ASan/UBSan, and that the five-letter alphabet covers the "
     "character classes the code distinguishes ('/', '.', other).", "DESIGN.md 4/C18")
 
@@ -105,8 +105,8 @@ reg("C11", "Hypothesis trees x readdir permutation shim (LD_PRELOAD) -> gensquas
     "Order is permuted at libc readdir(); plain build.", "DESIGN.md 4/C11")
 reg("C14", "Hypothesis inputs x SIGKILL before every output-file write (LD_PRELOAD shim) -> readers", "fault_enumeration",
     "crash-point enumeration: every prefix of the output write sequence is offered to all readers and an independent parser",
-    "gensquashfs / tar2sqfs are killed immediately before the k-th write/pwrite/ftruncate on the output file for every k (fresh file and -f "
-    "over a valid image); rdsquashfs -l/-d, sqfs2tar (ASan) and the independent parser must either all reject the leftover file or all read "
+    "gensquashfs / tar2sqfs are killed immediately before the k-th write/pwrite/ftruncate on the output file for every k (fresh file, -f "
+    "over the finished image of the same input, -f over a valid image of another tree); rdsquashfs -l/-d, sqfs2tar (ASan) and the independent parser must either all reject the leftover file or all read "
     "exactly the complete image.", "Models process death with ordered page cache, not power loss; single kill per run.", "DESIGN.md 4/C14")
 
 reg("C02", "Hypothesis inputs x (-j, -Q, -X, schedule perturbation shim, environment) vs serial build; ThreadSanitizer sample; block processor under the controlled scheduler", "exploration",
@@ -144,7 +144,8 @@ reg("C07", "libFuzzer (ASan+UBSan) on tar iterator/fstree and the pack/sort/xatt
     "every dialect and codec, on every hard-link graph over three names (and sampled over four) in tar and pack-file form, and on mutated text files. "
     "PAX headers are also generated as sequences of the records the reader knows (any order, repeats, odd values) and old GNU sparse maps as "
     "generated number lists, each followed by two ordinary members that must be in the image on exit 0; option sets x well-formed archives / pack, "
-    "sort and xattr files are enumerated as a matrix. "
+    "sort and xattr files are enumerated as a matrix. Entries over nested names with generated types and order: a name asked for as a non-directory "
+    "and as the parent of other entries must be refused, accepted inputs keep every entry with its type. "
     "Terminates; no sanitizer report; exit 0 => image satisfies the C03 invariants and the predicted link groups; exit 1 => diagnostic, no output file.",
     "What a malformed sparse map delivers is unspecified and not judged; hang detection is a 30 s limit.", "DESIGN.md 4/C07")
 
@@ -167,7 +168,9 @@ reg("C09", "controlled scheduler (src/vsched.cc) under the unmodified threadpool
     "spurious wake-ups up to 3 workers / 5 items. Invariants: exactly-once on one worker, exclusive per-worker context, FIFO exactly-once "
     "hand-back, failure reported instead of blocking, destroy joins; deadlock = no runnable thread. The block processor is driven on the same "
     "controlled pool (1-3 workers, backlog 2-8, preemption-bounded DFS): every call returns, every file reads back, and a compressor that fails in "
-    "a worker on the first / last block or the tail of any one file must make some call of the submitter fail.",
+    "a worker on the first / last block or the tail of any one file must make some call of the submitter fail. Model-based sequences "
+    "(src/c09_model.c, ASan): generated submit/dequeue/get_status programs over 1-20 items with partial drains and failing items run on the "
+    "serial reference pool and the pthread pool (1-4 workers) and are compared call by call with a FIFO model; failures shrink by deleting operations.",
     "Sequentially consistent interleavings at mutex/condvar granularity; block processor programs are bounded by an execution cap per "
     "configuration, not enumerated completely.", "DESIGN.md 4/C09, 8.3")
 
@@ -178,7 +181,8 @@ reg("C10", "Hypothesis operation histories -> src/c10_hist.c (ASan): long-lived 
     "for every compressor (fragments, sparse, multi-block, out-of-line xattrs, 600 entry directory, export table), Python-written, and "
     "field-damaged variants, and directed ones (two files stored once with the second inode's block word altered, an unloadable fragment "
     "block, NUL bytes inside names, destroyed compressed bytes). Stream, positional and per-block file access must agree on readable files; a "
-    "stream read repeated after a failure must not deliver data; paths are passed in allocations of their exact size.",
+    "stream read repeated after a failure must not deliver data; paths are passed in allocations of their exact size. The low-level readdir "
+    "interface runs on one cursor object per reader set that is re-initialised after partial listings and continued after other operations.",
     "Directory readers use flags 0 (DOT_ENTRIES caching is documented as history dependent); digests are FNV-1a over payloads.", "DESIGN.md 4/C10")
 
 reg("C19", "Hypothesis programs -> src/c19_copy.c (ASan): copy vs twin with the same history, both release orders", "exploration",
@@ -188,7 +192,8 @@ reg("C19", "Hypothesis programs -> src/c19_copy.c (ASan): copy vs twin with the 
     "objects, either object is released at a random point and the survivor keeps being used. Compressor copies (all ids, both directions) and xattr "
     "writer copies (sets before / only on the original / after; flushed bytes compared with a twin writer) are covered by dedicated operations, "
     "as are options read from an image before a compressor is copied and copies that fail at their k-th allocation (reader set, xattr writer) "
-    "or for lack of file descriptors: the original is then compared with a twin.",
+    "or for lack of file descriptors: the original is then compared with a twin. Cursors that are continued after the copy (low-level readdir "
+    "cursor, sequential meta reader reads without a seek) must stand where the original stood.",
     "Images from the C10 pool; leak detection is off (the property speaks about crashes and state, leaks of the harness itself would be noise).",
     "DESIGN.md 4/C19")
 
